@@ -1,7 +1,7 @@
 (* C08 — BDD-encoded automata: load/dump, union, intersection, trimming, conversion keep exact languages; no call
    changes the language of an operand. Value-level pool model. Statements only. *)
 From Coq Require Import List NArith Bool.
-From V Require Import Sem Prod Incl TrimDefs TrimProofs Lang ProductDefs ProductProofs PoolDefs PoolProofs ArityPrefix SharedTable DispatchTable ArityTie.
+From V Require Import Sem Prod Incl TrimDefs TrimProofs Lang ProductDefs ProductProofs PoolDefs PoolProofs ArityPrefix SharedTable DispatchTable ArityTie BddSym.
 
 (* frame property: an operation of the pool changes no handle but its target (operands keep their languages) *)
 Theorem C08_frame : forall p o h, h <> target o -> plookup (pool_step p o) h = plookup p h.
@@ -61,6 +61,26 @@ Theorem C08_ud_garbage_becomes_live :
   exists t, accepts (ta_app (polluted dA dB) dC) t /\ ~ accepts dA t /\ ~ accepts dC t.
 Proof. exact ud_garbage_becomes_live. Qed.
 
+(* (A) the symbolic transition tables of the bottom-up encoding: tuple of children |-> MTBDD over the symbol bits with SETS of parent
+   states in the leaves. Union merges the MTBDDs of equal tuples with Apply2 and set union, Intersection pairs tuples of equal length
+   and merges with "all pairs". For EVERY symbol the explicit rules of the result are the union / the product of the operands' rules *)
+Theorem C08_symbolic_union_parents : forall B A cs s x, BddSym.keys_nodup A -> BddSym.keys_nodup B ->
+  (In x (parents (bunion A B) cs s) <-> In x (parents A cs s) \/ In x (parents B cs s)).
+Proof. exact bunion_parents. Qed.
+Theorem C08_symbolic_isect_entry : forall K A B cs d, In (cs, d) (bisect K A B) <->
+  exists ca da cb db, In (ca, da) A /\ In (cb, db) B /\ length ca = length cb /\
+    cs = map (fun pq => pair_code K (fst pq) (snd pq)) (combine ca cb) /\ d = MtbddDefs.apply2 pset pset_eq_dec (set_pairs K) da db.
+Proof. exact bisect_entry. Qed.
+Theorem C08_symbolic_isect_parents : forall K da db s x,
+  In x (MtbddDefs.ev pset (MtbddDefs.apply2 pset pset_eq_dec (set_pairs K) da db) s) <->
+  exists p q, In p (MtbddDefs.ev pset da s) /\ In q (MtbddDefs.ev pset db s) /\ x = pair_code K p q.
+Proof. exact bisect_parents. Qed.
+Example C08_symbolic_union_example :
+  parents (bunion exA exB) (List.cons 1 (List.cons 2 List.nil))%N s01 = (List.cons 5 (List.cons 6 List.nil))%N /\
+  parents (bunion exA exB) (List.cons 3 List.nil)%N (fun _ => true) = (List.cons 7 List.nil)%N /\
+  parents (bunion exA exB) (List.cons 1 (List.cons 2 List.nil))%N (fun _ => true) = List.nil /\ length (bunion exA exB) = 3.
+Proof. exact bunion_example. Qed.
+
 Print Assumptions C08_frame.
 Print Assumptions C08_arity_prefix_injective.
 Print Assumptions C08_arity_prefix_guard_needed.
@@ -76,3 +96,7 @@ Print Assumptions C08_shared_union_exact.
 Print Assumptions C08_shared_isect_refuted.
 Print Assumptions C08_arity_constants_from_source.
 Print Assumptions C08_ud_garbage_becomes_live.
+Print Assumptions C08_symbolic_union_parents.
+Print Assumptions C08_symbolic_isect_entry.
+Print Assumptions C08_symbolic_isect_parents.
+Print Assumptions C08_symbolic_union_example.
